@@ -90,6 +90,9 @@ def run(ck, rng, tier):
     if rc != 0 or len(outs) != len(meta):
         ck.broken("driver drv_interp", "rc=%s cases=%d/%d %s" % (rc, len(outs), len(meta), err[-800:]))
         return
+    for op_ in ("spline", "nm"):
+        sel_ = [k for k in range(len(meta)) if meta[k][0] == op_]
+        vf.reuse_scan(ck, "drv_interp:" + op_, [outs[k] for k in sel_], lambda j, sel_=sel_: {"op": op_, "case": str(meta[sel_[j]][1:5])[:1500]})
     checks = vf.Checks()
     cv, cm, cf = vf.coq_vec, vf.coq_mat, vf.coq_f
     for i, (mt, o) in enumerate(zip(meta, outs)):
